@@ -325,8 +325,13 @@ func GenAsm(t *rapid.T, allowRaw bool) refbundle.Asm {
 	if a.Version == "b2" && rapid.Bool().Draw(t, "primary") {
 		secs = append(secs, refbundle.AsmSection{Name: "primary", Kind: "primary", Text: "https://a.example/r0", Decoy: -1})
 	}
-	if a.Version == "b1" && rapid.IntRange(0, 2).Draw(t, "manifest") == 0 {
-		secs = append(secs, refbundle.AsmSection{Name: "manifest", Kind: "manifest", Text: "https://a.example/manifest.json", Decoy: -1})
+	// a manifest section is a known section name in both versions (the writer only emits it for b1,
+	// but files come from anywhere); likewise a "primary" section may appear in a b1 file
+	if rapid.IntRange(0, 2).Draw(t, "manifest") == 0 {
+		secs = append(secs, refbundle.AsmSection{Name: "manifest", Kind: "manifest", Text: rapid.SampledFrom([]string{"https://a.example/manifest.json", "https://a.example/r0", "https://a.example/m?x=1"}).Draw(t, "manifesttext"), Decoy: -1})
+	}
+	if a.Version == "b1" && rapid.IntRange(0, 4).Draw(t, "b1primary") == 0 {
+		secs = append(secs, refbundle.AsmSection{Name: "primary", Kind: "primary", Text: "https://a.example/r0", Decoy: -1})
 	}
 	if rapid.IntRange(0, 3).Draw(t, "sigs") == 0 {
 		secs = append(secs, refbundle.AsmSection{Name: "signatures", Kind: "signatures", Decoy: -1})
